@@ -597,7 +597,10 @@ where
 /// A type used for more advanced ways of allocating a [`Gc`].
 pub struct GcBuilder<'gc, T: ?Sized, M = (), P = UnitPtrMeta> {
     ptr: GcPtr<T>,
-    _marker: PhantomData<(Invariant<'gc>, M, P)>,
+    // `*mut T` makes the builder invariant in `T`. The `T: Collect` bound is only checked when the
+    // builder is created, so a covariant `GcBuilder<'gc, &'static U>` could be coerced to a
+    // `GcBuilder<'gc, &'gc U>` and then be used to store an untraced `&'gc U` in the arena.
+    _marker: PhantomData<(Invariant<'gc>, M, P, *mut T)>,
 }
 
 impl<'gc, T: ?Sized, M, P> Drop for GcBuilder<'gc, T, M, P> {
